@@ -895,7 +895,12 @@ func (ctx Ctx) compositeLiteral(e *ast.CompositeLit) coq.Expr {
 	}
 	info, ok := ctx.getStructInfo(ctx.typeOf(e))
 	if ok {
-		return ctx.structLiteral(info, e)
+		sl := ctx.structLiteral(info, e)
+		if _, isPtr := ctx.typeOf(e).(*types.Pointer); isPtr && e.Type == nil {
+			// an element {...} of a []*T literal is shorthand for &T{...}
+			sl.Allocation = true
+		}
+		return sl
 	}
 	ctx.unsupported(e, "composite literal of type %v", ctx.typeOf(e))
 	return nil
